@@ -2,7 +2,7 @@
    specification machine of Model/UncOk.v; flavour, batch and schema invariants;
    the executable oracle c17_step accepts every observation of the model. *)
 From Coq Require Import ZArith NArith List Bool Lia Arith.
-From FV.Model Require Import Bytes Bson Metrics Codec Collector CollectorOk Instance UncOk.
+From FV.Model Require Import Bytes Bson Metrics Codec Collector Wf RoundTrip CollectorOk Instance UncOk.
 Import ListNotations.
 Open Scope Z_scope.
 
@@ -36,6 +36,13 @@ Proof. induction l as [|d l IH]; [reflexivity|]. cbn [lines_eqb]. rewrite up_byt
 
 Lemma up_length_zero : forall (A : Type) (l : list A), Z.of_nat (length l) = 0 -> l = [].
 Proof. intros A l H. destruct l; [reflexivity|cbn [length] in H; lia]. Qed.
+
+Ltac split_lets :=
+  repeat match goal with
+         | |- context [let '(_, _) := ?x in _] => destruct x
+         | |- context [if ?x then _ else _] => destruct x
+         | |- context [match ?x with Some _ => _ | None => _ end] => destruct x
+         end.
 
 (* ------------------------------------------------------------------ the writer *)
 Lemma log_ev_wev : forall w w' p e, log_ev w w' p e -> wev_of w w' = e.
@@ -841,13 +848,6 @@ Proof. intros k n c w Hk Hn Hr. destruct (reachable_inv k n (c, w) Hk Hn Hr) as 
 Definition cls (c : coll) : nat :=
   match c with CBase _ => 0 | CBatch _ => 1 | CDyn _ => 2 | CStream _ => 3 | CSDyn _ => 4 | CUnc _ => 5 end%nat.
 
-Ltac split_lets :=
-  repeat match goal with
-         | |- context [let '(_, _) := ?x in _] => destruct x
-         | |- context [if ?x then _ else _] => destruct x
-         | |- context [match ?x with Some _ => _ | None => _ end] => destruct x
-         end.
-
 Lemma c_add_cls : forall c w d now, cls (fst (fst (c_add deflate c w d now))) = cls c.
 Proof. intros c w d now. destruct c; cbn [c_add]; split_lets; reflexivity. Qed.
 Lemma c_add_bad_cls : forall c w, cls (fst (fst (c_add_bad deflate c w))) = cls c.
@@ -1072,3 +1072,492 @@ Proof.
 Qed.
 
 End Kinds.
+
+(* ------------------------------------------------------------------ a concrete history *)
+Definition ex_A1 : doc := [([120]%N, VInt64 1); ([121]%N, VInt64 2)].
+Definition ex_A2 : doc := [([120]%N, VInt64 3); ([121]%N, VInt64 4)].
+Definition ex_B : doc := [([120]%N, VInt64 5)].
+Definition ex_M : doc := [([104]%N, VString [49]%N)].
+Definition ex_ops : list op :=
+  [OSetMeta (Some ex_M); OAdd ex_A1 0; OAdd ex_A2 0; OAdd ex_B 0; OFlush; OAdd ex_A1 0; OReset; OResolve; OAdd ex_A2 0].
+
+Lemma unc_example : forall deflate : bytes -> bytes,
+  let res := run deflate (init_state KSDynUncB 2 []) ex_ops in
+  w_log (snd (fst res)) = [WFull (ODocs false [ex_M; ex_A1; ex_A2]); WFull (ODocs false [ex_M; ex_B])] /\
+  snd res = [BSetMeta; BAdd ROk; BAdd ROk; BAdd ROk; BFlush true; BAdd ROk; BReset; BResolve None; BAdd ROk] /\
+  c_resolve deflate (fst (fst res)) = Some (ODocs false [ex_M; ex_A2]) /\
+  a_total (snd (spec_trace deflate (init_state KSDynUncB 2 []) aspec0 ex_ops)) = [ex_A1; ex_A2; ex_B; ex_A2].
+Proof. intros deflate. cbv zeta. repeat split; vm_compute; reflexivity. Qed.
+
+(* ------------------------------------------------------------------ the oracle accepts the model *)
+Section Oracle.
+Variable render : doc -> bytes.
+Hypothesis render_nl : forall d, ~ In 10%N (render d).
+Variable deflate : bytes -> bytes.
+
+Notation smp := (smp render).
+Notation view_of := (view_of render).
+Notation view_of_rec := (view_of_rec render).
+
+Lemma split_lines_line : forall x r, ~ In 10%N x ->
+  split_lines (x ++ 10%N :: r) = let '(ls, rest) := split_lines r in (x :: ls, rest).
+Proof.
+  induction x as [|b x IH]; intros r Hx.
+  - cbn [app split_lines]. destruct (split_lines r) as [ls rest]. rewrite N.eqb_refl. reflexivity.
+  - cbn [app split_lines]. rewrite IH by (intros H; apply Hx; right; exact H).
+    destruct (split_lines r) as [ls rest].
+    replace (b =? 10)%N with false; [reflexivity|].
+    symmetry. apply N.eqb_neq. intros E. apply Hx. left. rewrite E. reflexivity.
+Qed.
+
+Lemma split_lines_render : forall ds,
+  split_lines (flat_map (fun d => render d ++ [10%N]) ds) = (map render ds, []).
+Proof.
+  induction ds as [|d ds IH]; [reflexivity|].
+  cbn [flat_map map]. rewrite <- app_assoc. cbn [app]. rewrite split_lines_line by apply render_nl.
+  rewrite IH. reflexivity.
+Qed.
+
+Lemma parsed_ok_refl : forall ds, parsed_ok (map Some ds) ds = true.
+Proof.
+  induction ds as [|d ds IH]; [reflexivity|]. cbn [map parsed_ok]. rewrite IH.
+  unfold doc_eqb. rewrite up_bytes_eqb_refl. destruct (json_stable d); reflexivity.
+Qed.
+
+Lemma map_fst_smp : forall ds, map fst (map smp ds) = ds.
+Proof. induction ds as [|d ds IH]; [reflexivity|]. cbn [map fst UncOk.smp]. rewrite IH. reflexivity. Qed.
+Lemma map_snd_smp : forall ds, map snd (map smp ds) = map render ds.
+Proof. induction ds as [|d ds IH]; [reflexivity|]. cbn [map snd UncOk.smp]. rewrite IH. reflexivity. Qed.
+
+Lemma check_out_ok : forall j ds, check_out j (map smp ds) (view_of (ODocs j ds)) = [].
+Proof.
+  intros j ds. destruct j; cbn [UncOk.view_of check_out negb].
+  - rewrite split_lines_render, map_snd_smp, up_lines_eqb_refl, map_fst_smp, parsed_ok_refl. reflexivity.
+  - rewrite map_fst_smp, up_docs_eqb_refl. reflexivity.
+Qed.
+
+Lemma view_count_ok : forall j ds, view_count (view_of (ODocs j ds)) = length ds.
+Proof.
+  intros j ds. destruct j; cbn [UncOk.view_of view_count]; [|reflexivity].
+  rewrite split_lines_render. cbn [fst]. apply map_length.
+Qed.
+
+Lemma mh_map : forall (m : option doc), mh (option_map smp m) = map smp (mh m).
+Proof. intros [x|]; reflexivity. Qed.
+
+(* expected content of a record, as the oracle stores it *)
+Definition frec (r : grec) : option (list sample) :=
+  match gr_part r with None => Some (map smp (mh (gr_meta r) ++ gr_samples r)) | Some _ => None end.
+
+Definition orel (a : aspec) (s : ost) : Prop :=
+  o_total s = map smp (a_total a) /\ o_dur s = length (flat_map gr_durable (a_recs a)) /\
+  o_recs s = map frec (a_recs a) /\ o_meta s = option_map smp (a_meta a).
+
+Definition views (j : bool) (recs : list grec) : list oview := map view_of_rec (map (wrec_of j) recs).
+
+Lemma views_length : forall j recs, length (views j recs) = length (map frec recs).
+Proof. intros j recs. unfold views. rewrite !map_length. reflexivity. Qed.
+
+Lemma views_snoc : forall j recs g, views j (recs ++ [g]) = views j recs ++ [view_of_rec (wrec_of j g)].
+Proof. intros j recs g. unfold views. rewrite !map_app. reflexivity. Qed.
+
+Lemma check_olds_ok : forall j recs rest, check_olds j (map frec recs) (views j recs ++ rest) = [].
+Proof.
+  intros j recs rest. induction recs as [|g recs IH]; [reflexivity|].
+  cbn [map views app check_olds]. fold (views j recs). rewrite IH, app_nil_r.
+  unfold frec, wrec_of. destruct (gr_part g); cbn [UncOk.view_of_rec]; [reflexivity|].
+  rewrite check_out_ok. reflexivity.
+Qed.
+
+Lemma skipn_smp : forall D X, skipn (length D) (map smp (D ++ X)) = map smp X.
+Proof. intros D X. rewrite map_app. rewrite <- (map_length smp D). apply up_skipn_app. Qed.
+
+Lemma check_news_full : forall j n M D P R recs_o,
+  P <> [] -> Z.of_nat (length P) <= n ->
+  check_news j n (mh (option_map smp M)) (map smp (D ++ P ++ R)) (length D) recs_o
+             [view_of (ODocs j (mh M ++ P))] =
+  ((length D + length P)%nat, recs_o ++ [Some (map smp (mh M ++ P))], []).
+Proof.
+  intros j n M D P R recs_o Hne Hlen.
+  assert (Hk : (view_count (view_of (ODocs j (mh M ++ P))) - length (mh (option_map smp M)))%nat = length P).
+  { rewrite view_count_ok, mh_map, map_length, app_length. lia. }
+  assert (Hexp : mh (option_map smp M) ++ firstn (length P) (skipn (length D) (map smp (D ++ P ++ R))) = map smp (mh M ++ P)).
+  { rewrite skipn_smp, map_app, <- (map_length smp P), up_firstn_app, mh_map, <- map_app. reflexivity. }
+  assert (Hz : (length P =? 0)%nat = false) by (destruct P; [contradiction|reflexivity]).
+  assert (Hb : (Z.of_nat (length P) <=? n) = true) by (apply Z.leb_le; exact Hlen).
+  destruct j; cbn [UncOk.view_of check_news]; cbn [UncOk.view_of] in Hk; rewrite Hk, Hexp, Hz, Hb.
+  - pose proof (check_out_ok true (mh M ++ P)) as Hc. cbn [UncOk.view_of] in Hc. rewrite Hc. reflexivity.
+  - pose proof (check_out_ok false (mh M ++ P)) as Hc. cbn [UncOk.view_of] in Hc. rewrite Hc. reflexivity.
+Qed.
+
+Lemma flat_durable_snoc_full : forall recs M P,
+  flat_map gr_durable (recs ++ [mkGrec M P None]) = flat_map gr_durable recs ++ P.
+Proof. intros. rewrite up_flat_map_snoc. reflexivity. Qed.
+Lemma flat_durable_snoc_part : forall recs M P k,
+  flat_map gr_durable (recs ++ [mkGrec M P (Some k)]) = flat_map gr_durable recs.
+Proof. intros. rewrite up_flat_map_snoc. cbn [gr_durable gr_part]. apply app_nil_r. Qed.
+
+(* the checks after the writer records: Resolve and Info *)
+Lemma tail_checks_ok : forall j n M' P',
+  Z.of_nat (length P') <= n ->
+  (match option_map view_of (spec_resolve j (mkAspec [] P' M')) with
+   | None => match map smp P' with [] => [] | _ => [XMissing] end
+   | Some v => (match map smp P' with [] => [XEmpty] | _ => [] end) ++
+               check_out j (mh (option_map smp M') ++ map smp P') v ++
+               (if Z.of_nat (length (map smp P')) <=? n then [] else [XBatch])
+   end) ++ (if Z.of_nat (length P') =? Z.of_nat (length (map smp P')) then [] else [XInfo]) = [].
+Proof.
+  intros j n M' P' Hlen. rewrite map_length, Z.eqb_refl, app_nil_r.
+  unfold spec_resolve. cbn [a_pend a_meta]. destruct P' as [|p P']; [reflexivity|].
+  cbn [option_map]. rewrite mh_map, <- map_app, check_out_ok.
+  replace (Z.of_nat (length (p :: P')) <=? n) with true by (symmetry; apply Z.leb_le; exact Hlen). reflexivity.
+Qed.
+
+Lemma spec_resolve_recs : forall j recs P M, spec_resolve j (mkAspec recs P M) = spec_resolve j (mkAspec [] P M).
+Proof. reflexivity. Qed.
+
+Lemma core_ok : forall j n s recs P M e Q P' M' total1 meta1,
+  o_dur s = length (flat_map gr_durable recs) -> o_recs s = map frec recs -> o_meta s = option_map smp M ->
+  total1 = map smp (flat_map gr_durable recs ++ Q) -> meta1 = option_map smp M' ->
+  match e with
+  | WNone => P' = Q
+  | WDone => Q = P ++ P' /\ P <> [] /\ Z.of_nat (length P) <= n
+  | WShort _ => P' = Q
+  end ->
+  Z.of_nat (length P') <= n ->
+  let a' := mkAspec (a_recs (spec_flush (mkAspec recs P M) e)) P' M' in
+  exists s', c17_core j n s total1 meta1 (views j (a_recs a')) (option_map view_of (spec_resolve j a'))
+                      (Z.of_nat (length P')) = (s', []) /\ orel a' s'.
+Proof.
+  intros j n s recs P M e Q P' M' total1 meta1 Hdur Hrecs Hmeta Ht Hm He Hlen. cbn zeta. subst total1 meta1.
+  unfold c17_core. rewrite Hrecs, Hdur, Hmeta, spec_resolve_recs.
+  destruct e as [| |k]; cbn [spec_flush a_recs a_pend a_meta].
+  - subst Q.
+    assert (H1 : check_olds j (map frec recs) (views j recs) = []).
+    { rewrite <- (app_nil_r (views j recs)). apply check_olds_ok. }
+    assert (H2 : skipn (length (map frec recs)) (views j recs) = []).
+    { rewrite <- (views_length j recs). apply up_skipn_all. }
+    rewrite H1, H2. cbn [check_news]. rewrite skipn_smp. cbn [app]. rewrite (tail_checks_ok j n M' P' Hlen).
+    eexists. split; [reflexivity|]. unfold orel, a_total. cbn [o_total o_dur o_recs o_meta a_recs a_pend a_meta].
+    repeat split.
+  - destruct He as (EQ & Hne & HlenP). subst Q.
+    assert (H1 : check_olds j (map frec recs) (views j (recs ++ [mkGrec M P None])) = []).
+    { rewrite views_snoc. apply check_olds_ok. }
+    assert (H2 : skipn (length (map frec recs)) (views j (recs ++ [mkGrec M P None])) = [view_of (ODocs j (mh M ++ P))]).
+    { rewrite views_snoc, <- (views_length j recs), up_skipn_app. reflexivity. }
+    rewrite H1, H2.
+    rewrite (check_news_full j n M (flat_map gr_durable recs) P P' (map frec recs) Hne HlenP).
+    rewrite app_assoc, <- app_length, skipn_smp. cbn [app]. rewrite (tail_checks_ok j n M' P' Hlen).
+    eexists. split; [reflexivity|]. unfold orel, a_total. cbn [o_total o_dur o_recs o_meta a_recs a_pend a_meta].
+    rewrite flat_durable_snoc_full. repeat split; rewrite ?(map_app frec), ?app_assoc; reflexivity.
+  - subst Q.
+    assert (H1 : check_olds j (map frec recs) (views j (recs ++ [mkGrec M P (Some k)])) = []).
+    { rewrite views_snoc. apply check_olds_ok. }
+    assert (H2 : skipn (length (map frec recs)) (views j (recs ++ [mkGrec M P (Some k)])) = [VPartial]).
+    { rewrite views_snoc, <- (views_length j recs), up_skipn_app. reflexivity. }
+    rewrite H1, H2. cbn [check_news].
+    rewrite skipn_smp. cbn [app]. rewrite (tail_checks_ok j n M' P' Hlen).
+    eexists. split; [reflexivity|]. unfold orel, a_total. cbn [o_total o_dur o_recs o_meta a_recs a_pend a_meta].
+    rewrite flat_durable_snoc_part. repeat split; rewrite ?(map_app frec); reflexivity.
+Qed.
+
+Lemma c_add_bad_res : forall c w, snd (c_add_bad deflate c w) <> ROk.
+Proof. intros c w. destruct c; cbn [c_add_bad]; split_lets; cbn [snd]; discriminate. Qed.
+
+Lemma step_add_bad_obs : forall st st' b, step deflate st OAddBad = (st', b) -> obs_add_ok b = false.
+Proof.
+  intros [c w] st' b H. cbn [step] in H. pose proof (c_add_bad_res c w) as Hr.
+  destruct (c_add_bad deflate c w) as [[c' w'] r]. injection H as _ E. subst b. cbn [snd] in Hr.
+  destruct r; try reflexivity. contradiction.
+Qed.
+
+Lemma step_quiet_writer : forall st o st' b, step deflate st o = (st', b) ->
+  match o with OResolve | OReset | OSetMeta _ | OInfo => snd st' = snd st | _ => True end.
+Proof.
+  intros [c w] o st' b H. destruct o; try exact I; cbn [step] in H.
+  - injection H as E _. subst st'. reflexivity.
+  - injection H as E _. subst st'. reflexivity.
+  - injection H as E _. subst st'. reflexivity.
+  - destruct (c_info c). injection H as E _. subst st'. reflexivity.
+Qed.
+
+(* the pending samples the oracle expects after the operation, before writes are accounted for *)
+Definition q_of (P : list doc) (o : op) (b : obs) : list doc :=
+  match o, b with
+  | OAdd d _, BAdd ROk => P ++ [d]
+  | OReset, _ => []
+  | _, _ => P
+  end.
+
+Lemma spec_op_recs : forall x o b, a_recs (spec_op x o b) = a_recs x.
+Proof. intros x o b. unfold spec_op. destruct o; try reflexivity. destruct b as [r| | | | |]; try reflexivity. destruct r; reflexivity. Qed.
+
+Lemma spec_op_pend : forall x o b, a_pend (spec_op x o b) = q_of (a_pend x) o b.
+Proof. intros x o b. unfold spec_op, q_of. destruct o; try reflexivity. destruct b as [r| | | | |]; try reflexivity. destruct r; reflexivity. Qed.
+
+Lemma spec_op_meta : forall x o b, a_meta (spec_op x o b) = match o with OSetMeta m => m | _ => a_meta x end.
+Proof. intros x o b. unfold spec_op. destruct o; try reflexivity. destruct b as [r| | | | |]; try reflexivity. destruct r; reflexivity. Qed.
+
+Lemma total1_ok : forall s a o b, orel a s -> (o = OAddBad -> obs_add_ok b = false) ->
+  c17_total1 s (opk_of o) (op_okflag o b) (op_sample render o) =
+  map smp (flat_map gr_durable (a_recs a) ++ q_of (a_pend a) o b).
+Proof.
+  intros s a o b (Ht & Hd & _) Hbad. unfold a_total in Ht. unfold c17_total1, q_of.
+  destruct o as [d now| | | | |m|]; cbn [opk_of op_okflag op_sample]; try exact Ht.
+  - unfold obs_add_ok. destruct b as [r| | | | |]; try exact Ht. destruct r; try exact Ht.
+    rewrite Ht, app_assoc, (map_app smp (_ ++ _) [d]). reflexivity.
+  - rewrite (Hbad eq_refl). exact Ht.
+  - rewrite Ht, Hd, map_app, <- (map_length smp), up_firstn_app, app_nil_r. reflexivity.
+Qed.
+
+Lemma meta1_ok : forall s a x o b, orel a s -> a_meta x = a_meta a -> o <> OSetMeta None ->
+  c17_meta1 s (opk_of o) (op_okflag o b) (op_sample render o) = option_map smp (a_meta (spec_op x o b)).
+Proof.
+  intros s a x o b (_ & _ & _ & Hm) Hx Hno. rewrite spec_op_meta. unfold c17_meta1.
+  destruct o as [d now| | | | |m|]; cbn [opk_of op_okflag op_sample]; try (rewrite Hx; exact Hm).
+  destruct m as [m|]; [reflexivity|contradiction].
+Qed.
+
+Lemma oracle_step : forall j n st a s o st' b, 1 <= n -> Inv j n st a -> orel a s ->
+  step deflate st o = (st', b) -> o <> OSetMeta None ->
+  exists s', c17_step j n s (opk_of o) (op_okflag o b) (op_sample render o)
+               (map view_of_rec (w_log (snd st'))) (option_map view_of (c_resolve deflate (fst st')))
+               (snd (c_info (fst st'))) = (s', []) /\
+    orel (spec_step a o b (wev_of (snd st) (snd st'))) s'.
+Proof.
+  intros j n st a s o st' b Hn HI Hrel Hstep Hno.
+  destruct (step_inv deflate j n st a o st' b Hn HI Hstep) as (HI' & _).
+  set (e := wev_of (snd st) (snd st')) in *.
+  assert (He0 : match o with OReset => e = WNone | _ => True end).
+  { pose proof (step_quiet_writer st o st' b Hstep) as Hq. destruct o; try exact I. unfold e. rewrite Hq. apply wev_of_same. }
+  destruct st' as [c' w']. destruct (Inv_obs deflate j n c' w' _ HI') as (Hres & Hinfo & Hlen & _).
+  pose proof HI' as (_ & (Hlog & _) & Hbnd & _). cbn [fst snd] in *.
+  rewrite Hres, Hinfo, Hlog. fold (views j (a_recs (spec_step a o b e))).
+  unfold c17_step, spec_step in *.
+  set (a1 := spec_flush a e) in *.
+  assert (Eshape : spec_op a1 o b = mkAspec (a_recs a1) (a_pend (spec_op a1 o b)) (a_meta (spec_op a1 o b))).
+  { rewrite <- (spec_op_recs a1 o b). symmetry. apply aspec_eta. }
+  rewrite Eshape. rewrite Eshape in Hlen, Hbnd. cbn [a_pend a_recs] in Hlen, Hbnd.
+  destruct a as [recs P M]. pose proof Hrel as (Ht & Hd & Hr & Hm). cbn [a_recs a_pend a_meta] in *.
+  apply (core_ok j n s recs P M e (q_of P o b)).
+  - exact Hd.
+  - exact Hr.
+  - exact Hm.
+  - apply (total1_ok s (mkAspec recs P M) o b Hrel). intros E. subst o. apply (step_add_bad_obs st _ b Hstep).
+  - apply (meta1_ok s (mkAspec recs P M) a1 o b Hrel); [apply spec_flush_meta|exact Hno].
+  - rewrite spec_op_pend. subst a1. destruct e as [| |k]; cbn [spec_flush a_pend a_recs] in *.
+    + reflexivity.
+    + unfold recs_bounded in Hbnd. cbn [a_recs] in Hbnd. apply Forall_app in Hbnd. destruct Hbnd as (_ & Hb).
+      inversion Hb as [|g l (Hne & Hle) _]; subst. cbn [gr_samples] in *.
+      split; [|split; assumption].
+      unfold q_of. destruct o as [d now| | | | |m|]; try (rewrite app_nil_r; reflexivity).
+      * destruct b as [r| | | | |]; try (rewrite app_nil_r; reflexivity). destruct r; try (rewrite app_nil_r; reflexivity). reflexivity.
+      * discriminate He0.
+    + reflexivity.
+  - exact Hlen.
+Qed.
+
+Lemma oracle_run_from : forall j n ops st a s, 1 <= n -> Inv j n st a -> orel a s ->
+  Forall (fun o => o <> OSetMeta None) ops -> c17_run_from render deflate j n st s ops = true.
+Proof.
+  intros j n ops. induction ops as [|o r IH]; intros st a s Hn HI Hrel Hops; [reflexivity|].
+  inversion Hops as [|o' r' Ho Hr]; subst. cbn [c17_run_from].
+  destruct (step deflate st o) as [st' b] eqn:Es.
+  destruct (oracle_step j n st a s o st' b Hn HI Hrel Es Ho) as (s' & Hc & Hrel').
+  rewrite Hc. apply (IH st' (spec_step a o b (wev_of (snd st) (snd st'))) s' Hn); [|exact Hrel'|exact Hr].
+  apply (step_inv deflate j n st a o st' b Hn HI Es).
+Qed.
+
+Theorem unc_oracle : forall k n fs ops, unc_kind k = true -> 1 <= n ->
+  Forall (fun o => o <> OSetMeta None) ops -> c17_run render deflate k n fs ops = true.
+Proof.
+  intros k n fs ops Hk Hn Hops. unfold c17_run.
+  apply (oracle_run_from (kind_json k) n ops _ aspec0 ost0 Hn).
+  - apply (init_inv k n fs Hk). lia.
+  - repeat split.
+  - exact Hops.
+Qed.
+
+End Oracle.
+
+(* ------------------------------------------------------------------ schema-aware kinds on a pure Add sequence *)
+Section Groups.
+Variable deflate : bytes -> bytes.
+
+Lemma w_write_nofault : forall w p, w_faults w = [] ->
+  w_write w p = (mkWriter (w_log w ++ [WFull p]) [] (w_closed w), true).
+Proof. intros w p H. unfold w_write. rewrite H. reflexivity. Qed.
+
+Lemma sig_eqb_true : forall a b, sig_eqb a b = true <-> a = b.
+Proof.
+  intros [a1 a2] [b1 b2]. unfold sig_eqb. cbn [fst snd]. split.
+  - intros H. apply andb_true_iff in H. destruct H as [H1 H2]. apply up_bytes_eqb_true in H1. apply Z.eqb_eq in H2. subst. reflexivity.
+  - intros H. injection H as E1 E2. subst. rewrite up_bytes_eqb_refl, Z.eqb_refl. reflexivity.
+Qed.
+
+Lemma run_app : forall ops1 ops2 st,
+  run deflate st (ops1 ++ ops2) =
+  let '(st1, o1) := run deflate st ops1 in let '(st2, o2) := run deflate st1 ops2 in (st2, o1 ++ o2).
+Proof.
+  induction ops1 as [|o r IH]; intros ops2 st.
+  - cbn [app run]. destruct (run deflate st ops2). reflexivity.
+  - cbn [app run]. destruct (step deflate st o) as [st' b]. rewrite IH.
+    destruct (run deflate st' r) as [st1 o1]. destruct (run deflate st1 ops2) as [st2 o2]. reflexivity.
+Qed.
+
+Definition full_rec (j : bool) (g : list doc) : wrec := WFull (ODocs j g).
+
+(* one Add on a schema-aware collector without metadata and with an acknowledging writer *)
+Lemma sdyn_add_step : forall j n x u w d now, 1 <= n -> sd_holds j n x u -> w_faults w = [] -> uc_meta u = None ->
+  d <> [] -> Forall (fun s : doc => s <> []) (uc_samples u) ->
+  (forall s, In s (uc_samples u) -> schema_sig s = schema_sig d -> length s = length d) ->
+  exists x' u' w' pre, sd_add deflate x w d now = (x', w', ROk) /\ sd_holds j n x' u' /\ w_faults w' = [] /\ uc_meta u' = None /\
+    w_log w' = w_log w ++ map (full_rec j) pre /\
+    (uc_samples u' = uc_samples u ++ [d] \/ uc_samples u' = [d]) /\
+    forall r, groups_from n (uc_samples u) (d :: r) = pre ++ groups_from n (uc_samples u') r.
+Proof.
+  intros j n x u w d now Hn Hh Hw Hm Hd Hne Hcompat. pose proof Hh as (Hs & Hhash). pose proof Hs as (_ & Hu & _).
+  destruct (uc_samples u) as [|c0 cs] eqn:Es.
+  - (* nothing pending *)
+    assert (Hgoal : exists x' u', sd_add deflate x w d now = (x', w, ROk) /\ sd_holds j n x' u' /\ uc_meta u' = uc_meta u /\ uc_samples u' = [d]).
+    { destruct (sd_changed x d) eqn:Hch.
+      - destruct (sd_add_fresh deflate j n x u w d now Hn Hh Hch Es) as (x' & u' & Ha & Hh' & Hmeta & Hsm). exists x', u'. split; [exact Ha|]. split; [exact Hh'|]. split; [exact Hmeta|exact Hsm].
+      - destruct (sd_add_same deflate j n x u w d now Hn Hh Hch) as (s' & u' & w' & r & Ha & _ & Hadd & Hh').
+        destruct (sc_add_room deflate j n (sd_s x) u w d now Hn Hs) as (s2 & u2 & Ha2 & (Hi2 & _) & Hmeta & Hsm & _).
+        { rewrite Es. cbn [length]. lia. }
+        rewrite (uc_add_res_empty j n u d Hn Hu Es) in *. rewrite Ha2 in Ha. injection Ha as E1 E2 E3. subst s' w' r.
+        destruct Hh' as ((Hi' & _) & _). cbn [sd_s] in Hi'. rewrite Hi2 in Hi'. injection Hi' as E. subst u'.
+        eexists _, u2. split; [exact Hadd|]. split; [|split; [exact Hmeta|rewrite Hsm, Es; reflexivity]].
+        destruct (sd_add_same deflate j n x u w d now Hn Hh Hch) as (s3 & u3 & w3 & r3 & Ha3 & _ & _ & Hh3).
+        rewrite Ha2 in Ha3. injection Ha3 as F1 F2 F3. subst s3 w3 r3.
+        destruct Hh3 as ((Hi3 & Hx3) & Hy3). cbn [sd_s] in Hi3. rewrite Hi2 in Hi3. injection Hi3 as F. subst u3.
+        split; [split; [exact Hi2|exact Hx3]|exact Hy3]. }
+    destruct Hgoal as (x' & u' & Ha & Hh' & Hmeta & Hsm). exists x', u', w, []. rewrite Hsm.
+    split; [exact Ha|]. split; [exact Hh'|]. split; [exact Hw|]. split; [rewrite Hmeta; exact Hm|].
+    split; [rewrite app_nil_r; reflexivity|]. split; [right; reflexivity|]. intros r. reflexivity.
+  - (* samples pending *)
+    assert (Hnn : uc_samples u <> []) by (rewrite Es; discriminate).
+    assert (Hall : forall s, In s (uc_samples u) -> schema_sig s = schema_sig c0).
+    { intros s Hin. apply (sd_pending_one_schema j n (CSDyn x) u Hh eq_refl); [exact Hin|rewrite Es; left; reflexivity]. }
+    assert (Hpay : payload j u = ODocs j (c0 :: cs)) by (unfold payload; rewrite Hm, Es; reflexivity).
+    destruct (sig_eqb (schema_sig c0) (schema_sig d) && (Z.of_nat (length (c0 :: cs)) <? n)) eqn:Hc.
+    + (* same signature, room *)
+      pose proof Hc as Hc0.
+      apply andb_true_iff in Hc. destruct Hc as [Hsig Hroom]. apply sig_eqb_true in Hsig. apply Z.ltb_lt in Hroom.
+      assert (Hch : sd_changed x d = false).
+      { apply (sd_changed_pending j n x u d Hh Hnn). intros s Hin. rewrite (Hall s Hin). exact Hsig. }
+      destruct (sd_add_same deflate j n x u w d now Hn Hh Hch) as (s' & u' & w' & r & Ha & _ & Hadd & Hh').
+      destruct (sc_add_room deflate j n (sd_s x) u w d now Hn Hs) as (s2 & u2 & Ha2 & (Hi2 & _) & Hmeta & Hsm & _).
+      { rewrite Es. exact Hroom. }
+      assert (Hres : uc_add_res u d = ROk).
+      { destruct (uc_add_res_cases u d) as [(H0 & Hl & _)|(_ & [(Hb & _)|(_ & E)])]; [exfalso| exfalso|exact E].
+        - destruct Hu as (_ & _ & _ & Hf & _). rewrite Forall_forall in Hf.
+          assert (Hin : In c0 (uc_samples u)) by (rewrite Es; left; reflexivity).
+          destruct (Hf c0 Hin) as [E0|E0].
+          + rewrite Forall_forall in Hne. apply (Hne c0); [left; reflexivity|exact E0].
+          + apply Hl. rewrite <- E0. f_equal. symmetry. apply Hcompat; [left; reflexivity|exact Hsig].
+        - destruct Hu as (_ & Hbb & _). rewrite Hbb, Es in Hb. lia. }
+      rewrite Hres in *. rewrite Ha2 in Ha. injection Ha as E1 E2 E3. subst s' w' r.
+      destruct Hh' as ((Hi' & Hx') & Hy'). cbn [sd_s] in Hi'. rewrite Hi2 in Hi'. injection Hi' as E. subst u'.
+      eexists _, u2, w, []. split; [exact Hadd|]. split; [split; [split; [exact Hi2|exact Hx']|exact Hy']|].
+      split; [exact Hw|]. split; [rewrite Hmeta; exact Hm|]. split; [rewrite app_nil_r; reflexivity|].
+      split; [left; rewrite Hsm, Es; reflexivity|].
+      intros r. rewrite Hsm, Es. cbn [groups_from app]. rewrite Hc0. reflexivity.
+    + (* another signature, or full: everything pending is written, d starts a new group *)
+      pose proof Hc as Hc0.
+      assert (Hgoal : exists x' u', sd_add deflate x w d now = (x', mkWriter (w_log w ++ [WFull (payload j u)]) [] (w_closed w), ROk) /\
+                        sd_holds j n x' u' /\ uc_meta u' = uc_meta u /\ uc_samples u' = [d]).
+      { destruct (sd_changed x d) eqn:Hch.
+        - destruct (sd_add_change deflate j n x u w d now Hn Hh Hch Hnn) as (w' & ok & e & Hww & _ & _ & Hres).
+          rewrite (w_write_nofault w _ Hw) in Hww. injection Hww as E1 E2. subst w' ok.
+          destruct Hres as (x' & u' & Ha & Hh' & Hmeta & Hsm). exists x', u'. split; [exact Ha|]. split; [exact Hh'|]. split; [exact Hmeta|exact Hsm].
+        - assert (Hsig : schema_sig c0 = schema_sig d).
+          { apply (proj1 (sd_changed_pending j n x u d Hh Hnn) Hch). rewrite Es. left. reflexivity. }
+          apply andb_false_iff in Hc. destruct Hc as [Hc|Hc].
+          { apply sig_eqb_true in Hsig. rewrite Hsig in Hc. discriminate Hc. }
+          apply Z.ltb_ge in Hc.
+          destruct (sc_add_full deflate j n (sd_s x) u w d now Hn Hs) as (_ & w' & ok & e & Hww & _ & _ & Hres).
+          { rewrite Es. exact Hc. }
+          rewrite (w_write_nofault w _ Hw) in Hww. injection Hww as E1 E2. subst w' ok.
+          destruct Hres as (s' & u' & Ha & Hh' & Hmeta & Hsm).
+          destruct (sd_add_same deflate j n x u w d now Hn Hh Hch) as (s3 & u3 & w3 & r3 & Ha3 & _ & Hadd & Hh3).
+          rewrite Ha in Ha3. injection Ha3 as F1 F2 F3. subst s3 w3 r3.
+          destruct Hh3 as ((Hi3 & Hx3) & Hy3). destruct Hh' as (Hi' & _). cbn [sd_s] in Hi3. rewrite Hi' in Hi3. injection Hi3 as F. subst u3.
+          eexists _, u'. split; [exact Hadd|]. split; [split; [split; [exact Hi'|exact Hx3]|exact Hy3]|]. split; assumption. }
+      destruct Hgoal as (x' & u' & Ha & Hh' & Hmeta & Hsm). eexists x', u', _, [c0 :: cs]. rewrite Hsm.
+      split; [exact Ha|]. split; [exact Hh'|]. split; [reflexivity|]. split; [rewrite Hmeta; exact Hm|].
+      split; [cbn [w_log map]; rewrite Hpay; reflexivity|]. split; [right; reflexivity|].
+      intros r. cbn [groups_from app]. rewrite Hc0. reflexivity.
+Qed.
+
+
+
+Lemma sdyn_adds : forall j n docs nows x u w, 1 <= n -> sd_holds j n x u -> w_faults w = [] -> uc_meta u = None ->
+  length nows = length docs ->
+  Forall (fun s : doc => s <> []) (uc_samples u ++ docs) ->
+  (forall a b, In a (uc_samples u ++ docs) -> In b (uc_samples u ++ docs) -> schema_sig a = schema_sig b -> length a = length b) ->
+  exists x' u' w' pre, run deflate (CSDyn x, w) (add_ops docs nows) = ((CSDyn x', w'), map (fun _ => BAdd ROk) docs) /\
+    sd_holds j n x' u' /\ w_faults w' = [] /\ uc_meta u' = None /\
+    w_log w' = w_log w ++ map (full_rec j) pre /\
+    groups_from n (uc_samples u) docs = pre ++ groups_from n (uc_samples u') [].
+Proof.
+  intros j n docs. induction docs as [|d r IH]; intros nows x u w Hn Hh Hw Hm Hlen Hne Hcompat.
+  - exists x, u, w, []. destruct nows; [|discriminate Hlen]. cbn [add_ops combine map run].
+    split; [reflexivity|]. split; [exact Hh|]. split; [exact Hw|]. split; [exact Hm|]. split; [rewrite app_nil_r; reflexivity|reflexivity].
+  - destruct nows as [|now nows]; [discriminate Hlen|]. injection Hlen as Hlen.
+    pose proof Hne as Hne0. apply Forall_app in Hne. destruct Hne as (Hne1 & Hne2). inversion Hne2 as [|d' r' Hd Hr]; subst.
+    destruct (sdyn_add_step j n x u w d now Hn Hh Hw Hm Hd Hne1) as (x1 & u1 & w1 & pre1 & Ha & Hh1 & Hw1 & Hm1 & Hlog1 & Hs1 & Hg1).
+    { intros s Hin Hsig. apply Hcompat; [apply in_or_app; left; exact Hin|apply in_or_app; right; left; reflexivity|exact Hsig]. }
+    assert (Hsub : forall s, In s (uc_samples u1) -> In s (uc_samples u ++ [d])).
+    { intros s Hin. destruct Hs1 as [E|E]; rewrite E in Hin; [exact Hin|apply in_or_app; right; exact Hin]. }
+    assert (Hsub' : forall s, In s (uc_samples u1 ++ r) -> In s (uc_samples u ++ d :: r)).
+    { intros s Hin. apply in_app_or in Hin. destruct Hin as [Hin|Hin].
+      - apply Hsub in Hin. apply in_app_or in Hin. destruct Hin as [Hin|[E|[]]]; apply in_or_app; [left; exact Hin|right; left; exact E].
+      - apply in_or_app. right. right. exact Hin. }
+    destruct (IH nows x1 u1 w1 Hn Hh1 Hw1 Hm1 Hlen) as (x2 & u2 & w2 & pre2 & Hrun & Hh2 & Hw2 & Hm2 & Hlog2 & Hg2).
+    { rewrite Forall_forall in *. intros s Hin. apply Hne0. apply Hsub'. exact Hin. }
+    { intros a b Hia Hib. apply Hcompat; apply Hsub'; assumption. }
+    exists x2, u2, w2, (pre1 ++ pre2). cbn [add_ops combine map run step c_add fst snd]. rewrite Ha.
+    fold (add_ops r nows). rewrite Hrun.
+    split; [reflexivity|]. split; [exact Hh2|]. split; [exact Hw2|]. split; [exact Hm2|].
+    split; [rewrite Hlog2, Hlog1, map_app, app_assoc; reflexivity|].
+    rewrite Hg1, Hg2, app_assoc. reflexivity.
+Qed.
+
+(* C08 for these kinds: for a pure Add sequence and a final flush, every document
+   is accepted and the outputs are exactly the greedy groups (new output at a
+   signature change or at capacity), as long as documents of one metric
+   signature have one top-level field count (otherwise: RCount, see C17_schema)
+   and none is empty *)
+Theorem unc_sdyn_groups : forall k n docs nows, unc_kind k = true -> sdyn_kind k = true -> 1 <= n ->
+  length nows = length docs ->
+  Forall (fun s : doc => s <> []) docs ->
+  (forall a b, In a docs -> In b docs -> schema_sig a = schema_sig b -> length a = length b) ->
+  let res := run deflate (init_state k n []) (add_ops docs nows ++ [OFlush]) in
+  snd res = map (fun _ => BAdd ROk) docs ++ [BFlush true] /\
+  w_log (snd (fst res)) = map (fun g => WFull (ODocs (kind_json k) g)) (groups_from n [] docs) /\
+  concat (groups_from n [] docs) = docs.
+Proof.
+  intros k n docs nows Hk Hsd Hn Hlen Hne Hcompat. cbn zeta.
+  assert (Hinit : exists x, new_coll k n = CSDyn x /\ sd_holds (kind_json k) n x (mkUcoll (kind_json k) n 0 None [])).
+  { pose proof (st_new_holds k n Hk ltac:(lia)) as Hh. destruct k; try discriminate Hsd; cbn [new_coll] in *; eexists; split; try reflexivity; exact Hh. }
+  destruct Hinit as (x & Ex & Hh). unfold init_state. rewrite Ex.
+  destruct (sdyn_adds (kind_json k) n docs nows x _ (mkWriter [] [] false) Hn Hh eq_refl eq_refl Hlen)
+    as (x' & u' & w' & pre & Hrun & Hh' & Hw' & Hm' & Hlog & Hg); [exact Hne|exact Hcompat|].
+  cbn [uc_samples w_log app] in Hlog, Hg.
+  rewrite run_app, Hrun. cbn [run step c_flush].
+  assert (Hcat : forall cur ds, concat (groups_from n cur ds) = cur ++ ds).
+  { clear. intros cur ds. revert cur. induction ds as [|d r IH]; intros cur.
+    - cbn [groups_from]. destruct cur; cbn [concat]; rewrite ?app_nil_r; reflexivity.
+    - cbn [groups_from]. destruct cur as [|c0 cs]; [rewrite IH; reflexivity|].
+      destruct (_ && _); [rewrite IH, <- app_assoc; reflexivity|]. cbn [concat]. rewrite IH. reflexivity. }
+  destruct (sd_flush_spec deflate (kind_json k) n x' u' w' Hh') as [[E Hf]|(Hnn & w2 & ok & e & Hww & _ & _ & Hf)]; rewrite Hf.
+  - cbn [fst snd]. split; [reflexivity|]. split; [|apply (Hcat [] docs)].
+    rewrite Hlog, Hg, E. cbn [groups_from]. rewrite app_nil_r. reflexivity.
+  - rewrite (w_write_nofault w' _ Hw') in Hww. injection Hww as E1 E2. subst w2 ok. cbn [fst snd w_log].
+    split; [reflexivity|]. split; [|apply (Hcat [] docs)].
+    rewrite Hlog, Hg, map_app. unfold payload. rewrite Hm'. cbn [mh app groups_from].
+    destruct (uc_samples u'); [contradiction|]. reflexivity.
+Qed.
+
+End Groups.
